@@ -53,11 +53,23 @@ struct Obs
 	}
 } ;
 
+static bool g_raw_reads = false ;	// set per case: the routes are compared through sf_read_raw instead of sf_readf_int
 static void observe (SNDFILE *f, const SF_INFO &info, Obs &o, bool vox)
 {	o.opened = f != nullptr ; o.info = info ;
 	if (!f) { o.err = sf_error (nullptr) ; return ; }
 	int ch = info.channels > 0 && info.channels <= 1024 ? info.channels : 1 ; long long want = 2000 ; if (vox) want &= ~1ll ;
-	o.samples.assign ((size_t) want * ch, 0) ; o.got = sf_readf_int (f, o.samples.data (), want) ; if (o.got < 0) o.got = 0 ; o.samples.resize ((size_t) o.got * ch) ;
+	const Codec *ocd = codec_of (info.format) ;
+	if (g_raw_reads && ocd && ocd->granular && ocd->bytes > 0)
+	{	// the audio through sf_read_raw, in pieces, until the handle says there is no more (at most 40 calls): every route must deliver the same bytes and stop at the same place
+		long long bw = (long long) ocd->bytes * ch ; std::vector<uint8_t> piece ((size_t) (bw * 37)) ; o.got = 0 ; o.samples.clear () ;
+		for (int call = 0 ; call < 40 ; call++)
+		{	sf_count_t g = sf_read_raw (f, piece.data (), (sf_count_t) piece.size ()) ; if (g <= 0) break ;
+			for (sf_count_t i = 0 ; i < g ; i++) o.samples.push_back (piece [(size_t) i]) ;
+			o.got += g ;
+		}
+	}
+	else
+	{	o.samples.assign ((size_t) want * ch, 0) ; o.got = sf_readf_int (f, o.samples.data (), want) ; if (o.got < 0) o.got = 0 ; o.samples.resize ((size_t) o.got * ch) ; }
 	for (int s = SF_STR_FIRST ; s <= SF_STR_LAST ; s++) { const char *p = sf_get_string (f, s) ; o.strings += p ? p : "\x01" ; o.strings += '\n' ; }
 	o.close_rc = sf_close (f) ;
 }
@@ -70,6 +82,7 @@ static Result run_read (const Case &c, Result r)
 	bool raw = (s.format & SF_FORMAT_TYPEMASK) == SF_FORMAT_RAW ;
 	auto fail = [&] (const char *kind, const std::string &d) { Result x = r ; x.ok = false ; x.kind = kind ; x.detail = d ; return x ; } ;
 	Rng rng ((uint64_t) c.geti ("seed")) ;
+	g_raw_reads = ((c.geti ("seed") >> 3) & 3) == 0 ; r.classes.push_back (std::string ("reads:") + (g_raw_reads ? "raw" : "typed")) ;
 	// the byte string
 	std::vector<uint8_t> bytes ;
 	{	MemFile m ; SNDFILE *f = open_write_mem (m, s) ; if (!f) return fail ("populate_failed", sf_strerror (nullptr)) ;
